@@ -122,6 +122,7 @@ int cases_main(int argc, char** argv) {
   if (!out) return 2;
   vf::crash_ctx().out = out;
   vf::install_crash_handlers();
+  protect_process();
   std::ifstream in(argv[1]);
   if (!in) { std::cerr << "cannot open " << argv[1] << std::endl; return 2; }
   std::string line;
